@@ -355,6 +355,43 @@ def r8e(fb, rep):
         rep.ok(R, "%d deserialise calls, none at a borrowed string/bytes type" % n)
 
 
+def r8f(fb, rep):
+    """a reference to a host function in bytecode is resolved against the loading VM: the native function pointer is only ever
+    paired with the arity of that same native function, and the arity recorded in the bytecode is compared with it"""
+    R = "R8f"
+    rep.rule(R, "a deserialised extern-function reference takes pointer and arity from the VM's definition and rejects a differing recorded arity")
+    EF = "gluon_vm::value::ExternFunction"
+    n = 0
+    for b in fb.bodies.values():
+        if b.crate.name != "gluon_vm" or "serialization" not in b.id:
+            continue
+        for i, j, pl, rv, ln in b.assigns():
+            if not (rv[0] == "agg" and rv[1][0] == "adt" and rv[1][1] == EF):
+                continue
+            n += 1
+            a_src = flow.sources(b, rv[2][1], depth=12)
+            f_src = flow.sources(b, rv[2][2], depth=12)
+            paired = ("field", EF, "args") in a_src and ("field", EF, "function") in f_src
+            if not paired:
+                rep.violation(R, "extern-arity-from-bytecode|%s" % (b.get("root") or b.id)[:80], "%s pairs the VM's native function pointer with an arity that does not come from the same "
+                              "definition: a corrupted or foreign `args` makes the extern wrapper index past its frame (abort)" % b.id, "%s:%s" % (b.file, ln))
+                continue
+            # the recorded arity is compared with the VM's before the reference is accepted
+            guard = False
+            for bb, op, lhs, rhs, true_t, false_t in flow.comparison_switches(b):
+                ls, rs = flow.sources(b, lhs, depth=12), flow.sources(b, rhs, depth=12)
+                if op in ("Eq", "Ne") and (("field", EF, "args") in ls) != (("field", EF, "args") in rs):
+                    edge = true_t if op == "Eq" else false_t
+                    if flow.only_via_edge(b, i, (bb, edge)):
+                        guard = True
+            if guard:
+                rep.ok(R, "%s: ExternFunction { args, function } from the VM's definition, behind `recorded args == defined args`" % b.id[:90])
+            else:
+                rep.violation(R, "extern-arity-unchecked|%s" % (b.get("root") or b.id)[:80], "%s accepts an extern-function reference without comparing the recorded arity with the "
+                              "VM's definition" % b.id, "%s:%s" % (b.file, ln))
+    rep.floor(R, "extern-function constructions in deserialisation code", n, 1)
+
+
 def run(fb, rep, tier, cfg):
     import harness
     rep.explanation = (
@@ -374,3 +411,4 @@ def run(fb, rep, tier, cfg):
     r8c(fb, rep)
     r8d(fb, rep)
     r8e(fb, rep)
+    r8f(fb, rep)
